@@ -14,6 +14,7 @@ namespace
   };
   typedef Shape::Hypercube<2> Q; typedef Shape::Simplex<2> T; typedef Shape::Hypercube<3> H; typedef Shape::Simplex<3> X;
   const PairEntry pairs[] = {
-    {&Monitors<DLagrange3, Q>::run, true}, {&Monitors<DLagrange3, T>::run, true}, {&Monitors<DLagrange3, H>::run, false}, {&Monitors<DLagrange3, X>::run, false}};
+    {&Monitors<DLagrange3, Q>::run, true}, {&Monitors<DLagrange3, T>::run, true}, {&Monitors<DLagrange3, H>::run, true}, {&Monitors<DLagrange3, X>::run, true}};
 }
+static RegO3d o1("L3:H", &Monitors<DLagrange3, H>::run_o3d), o2("L3:X", &Monitors<DLagrange3, X>::run_o3d);
 VH_FAMILY(lag3) { run_pair(c, pairs, sizeof(pairs) / sizeof(pairs[0])); }
